@@ -229,6 +229,8 @@ enum Key {
     S(String),
     Sc(f32),
     Pair(Box<Key>, Box<Key>),
+    /// the components of a (possibly nested) tuple sort key, flattened
+    Tup(Vec<Key>),
 }
 
 impl Key {
@@ -254,6 +256,7 @@ impl Key {
             Key::S(x) => format!("{x:?}"),
             Key::Sc(x) => format!("{x:?}/{:08x}", x.to_bits()),
             Key::Pair(a, b) => format!("({}, {})", a.show(), b.show()),
+            Key::Tup(v) => format!("({})", v.iter().map(|k| k.show()).collect::<Vec<_>>().join(", ")),
         }
     }
 }
@@ -285,7 +288,13 @@ enum Kind {
     PairAscDesc,
     /// custom sort key given explicitly per (segment ordinal, doc): replica-guided tie layouts
     Layout(std::sync::Arc<Vec<Vec<u64>>>),
+    /// tuple of u64 fast-field keys with an order each. shape 0: `(k0,k1,k2)`, 1: `(k0,k1,k2,k3)`,
+    /// 2: `((k0,k1,k2),k3)`, 3: `(k0,(k1,k2,k3))`, 4: `((k0,k1),(k2,k3))`; cols index `TUPLE_COLS`
+    Tuple(u8, [u8; 4], [bool; 4]),
 }
+
+/// low-cardinality u64 columns first: lexicographic keys are decided by later components
+const TUPLE_COLS: [&str; 4] = ["ties", "t2", "t3", "u"];
 
 impl Kind {
     fn name(&self) -> String {
@@ -298,6 +307,10 @@ impl Kind {
             Kind::FastU64(asc) | Kind::FastI64(asc) | Kind::FastF64(asc) | Kind::FastDate(asc) | Kind::FastStr(asc) | Kind::FastTies(asc) => better(*asc, a, b),
             Kind::CustomMod(_, o) => better(o.unwrap_or(false), a, b),
             Kind::Layout(_) => better(false, a, b),
+            Kind::Tuple(_, _, asc) => match (a, b) {
+                (Key::Tup(x), Key::Tup(y)) => x.iter().zip(y.iter()).zip(asc.iter()).fold(Ordering::Equal, |acc, ((p, q), asc)| acc.then(better(*asc, p, q))),
+                _ => Ordering::Equal,
+            },
             Kind::PairAscDesc => match (a, b) {
                 (Key::Pair(a1, a2), Key::Pair(b1, b2)) => better(true, a1, b1).then(better(false, a2, b2)),
                 _ => Ordering::Equal,
@@ -467,6 +480,9 @@ struct Fields {
     d: Field,
     s: Field,
     ties: Field,
+    /// deterministic low-cardinality columns (massive ties, no generator randomness consumed)
+    t2: Field,
+    t3: Field,
 }
 
 fn schema() -> (Schema, Fields) {
@@ -482,7 +498,9 @@ fn schema() -> (Schema, Fields) {
     let d = sb.add_date_field("d", FAST);
     let s = sb.add_text_field("s", STRING | FAST);
     let ties = sb.add_u64_field("ties", FAST);
-    (sb.build(), Fields { body, title, basic, id, u, i, f, d, s, ties })
+    let t2 = sb.add_u64_field("t2", FAST);
+    let t3 = sb.add_u64_field("t3", FAST);
+    (sb.build(), Fields { body, title, basic, id, u, i, f, d, s, ties, t2, t3 })
 }
 
 fn field_norm_table() -> Vec<u32> {
@@ -631,6 +649,9 @@ fn build(spec: &CorpusSpec) -> Built {
             } else if all || !rng.chance(1, 20) {
                 doc.add_u64(fields.ties, if spec.ties_trend { seg_pos as u64 / 2 + rng.below(2) } else { rng.below(3) });
             }
+            // (a few documents without the value: None ordering inside tuples)
+            if j % 23 != 5 { doc.add_u64(fields.t2, (j % 7) as u64); }
+            if j % 29 != 3 { doc.add_u64(fields.t3, ((j / 3) % 5) as u64); }
             w.add_document(doc).unwrap();
             next_id += 1;
         }
@@ -744,6 +765,7 @@ fn keys_of(searcher: &Searcher, kind: &Kind, hits: &[(u32, DocId, Score)]) -> Ve
     let readers = searcher.segment_readers();
     let col_u: Vec<Column<u64>> = readers.iter().map(|r| r.fast_fields().u64("u").unwrap()).collect();
     let col_t: Vec<Column<u64>> = readers.iter().map(|r| r.fast_fields().u64("ties").unwrap()).collect();
+    let col_tuple: Vec<Vec<Column<u64>>> = TUPLE_COLS.iter().map(|n| readers.iter().map(|r| r.fast_fields().u64(n).unwrap()).collect()).collect();
     let col_i: Vec<Column<i64>> = readers.iter().map(|r| r.fast_fields().i64("i").unwrap()).collect();
     let col_f: Vec<Column<f64>> = readers.iter().map(|r| r.fast_fields().f64("f").unwrap()).collect();
     let col_d: Vec<Column<DateTime>> = readers.iter().map(|r| r.fast_fields().date("d").unwrap()).collect();
@@ -769,42 +791,81 @@ fn keys_of(searcher: &Searcher, kind: &Kind, hits: &[(u32, DocId, Score)]) -> Ve
                 Kind::TweakMod => Key::U(col_u[s].first(*doc).unwrap_or(7) % 5),
                 Kind::CustomMod(m, _) => Key::U(col_u[s].first(*doc).unwrap_or(0) % m),
                 Kind::Layout(l) => Key::U(l.get(s).and_then(|v| v.get(*doc as usize)).cloned().unwrap_or(0)),
+                Kind::Tuple(shape, cols, _) => Key::Tup((0..if *shape == 0 { 3 } else { 4 }).map(|c| opt(col_tuple[cols[c] as usize][s].first(*doc).map(Key::U))).collect()),
                 Kind::PairAscDesc => Key::Pair(Box::new(opt(col_t[s].first(*doc).map(Key::U))), Box::new(opt(col_i[s].first(*doc).map(Key::I)))),
             }
         })
         .collect()
 }
 
+thread_local! {
+    /// how the TopDocs collector is handed to `Searcher::search`: 0 = alone, 1 = second component of
+    /// `(Count, TopDocs)`, 2 = child of a `MultiCollector` (both go through `Collector::for_segment`
+    /// instead of the specialised `collect_segment`)
+    static WRAP: std::cell::Cell<u8> = const { std::cell::Cell::new(0) };
+}
+
+fn search_wrapped<C>(searcher: &Searcher, q: &dyn Query, c: C) -> tantivy::Result<C::Fruit>
+where C: Collector + Send + Sync + 'static, C::Fruit: 'static {
+    match WRAP.with(|w| w.get()) {
+        0 => searcher.search(q, &c),
+        1 => {
+            let (count, fruit) = searcher.search(q, &(tantivy::collector::Count, c))?;
+            let plain = searcher.search(q, &tantivy::collector::Count)?;
+            if count != plain {
+                return Err(tantivy::TantivyError::InternalError(format!("(Count, TopDocs) counted {count}, Count alone {plain}")));
+            }
+            Ok(fruit)
+        }
+        _ => {
+            let mut multi = tantivy::collector::MultiCollector::new();
+            let handle = multi.add_collector(c);
+            let _count = multi.add_collector(tantivy::collector::Count);
+            let mut fruits = searcher.search(q, &multi)?;
+            Ok(handle.extract(&mut fruits))
+        }
+    }
+}
+
 fn run_real(searcher: &Searcher, q: &dyn Query, kind: &Kind, k: usize, o: usize) -> Result<Vec<(Key, DocAddress)>, String> {
     let td = || TopDocs::with_limit(k).and_offset(o);
+    let by = |c: u8, asc: bool| (SortByStaticFastValue::<u64>::for_field(TUPLE_COLS[c as usize]), if asc { Order::Asc } else { Order::Desc });
+    let ku = |v: Option<u64>| v.map(Key::U).unwrap_or(Key::None);
     let ord = |asc: bool| if asc { Order::Asc } else { Order::Desc };
     let optk = |o: Option<Key>| o.unwrap_or(Key::None);
     let r = catch_unwind(AssertUnwindSafe(|| -> tantivy::Result<Vec<(Key, DocAddress)>> {
         Ok(match kind {
-            Kind::Score => searcher.search(q, &td().order_by_score())?.into_iter().map(|(s, a)| (Key::Sc(s), a)).collect(),
-            Kind::FastU64(asc) => searcher.search(q, &td().order_by_fast_field::<u64>("u", ord(*asc)))?.into_iter().map(|(v, a)| (optk(v.map(Key::U)), a)).collect(),
-            Kind::FastTies(asc) => searcher.search(q, &td().order_by_fast_field::<u64>("ties", ord(*asc)))?.into_iter().map(|(v, a)| (optk(v.map(Key::U)), a)).collect(),
-            Kind::FastI64(asc) => searcher.search(q, &td().order_by_fast_field::<i64>("i", ord(*asc)))?.into_iter().map(|(v, a)| (optk(v.map(Key::I)), a)).collect(),
-            Kind::FastF64(asc) => searcher.search(q, &td().order_by_fast_field::<f64>("f", ord(*asc)))?.into_iter().map(|(v, a)| (optk(v.map(Key::F)), a)).collect(),
-            Kind::FastDate(asc) => searcher.search(q, &td().order_by_fast_field::<DateTime>("d", ord(*asc)))?.into_iter().map(|(v, a)| (optk(v.map(|d| Key::I(d.into_timestamp_nanos()))), a)).collect(),
-            Kind::FastStr(asc) => searcher.search(q, &td().order_by_string_fast_field("s", ord(*asc)))?.into_iter().map(|(v, a)| (optk(v.map(Key::S)), a)).collect(),
-            Kind::TweakFloor => searcher
-                .search(q, &td().tweak_score(move |_r: &SegmentReader| move |_doc: DocId, score: Score| tweak_floor(score)))?
+            Kind::Score => search_wrapped(searcher, q, td().order_by_score())?.into_iter().map(|(s, a)| (Key::Sc(s), a)).collect(),
+            Kind::FastU64(asc) => search_wrapped(searcher, q, td().order_by_fast_field::<u64>("u", ord(*asc)))?.into_iter().map(|(v, a)| (optk(v.map(Key::U)), a)).collect(),
+            Kind::FastTies(asc) => search_wrapped(searcher, q, td().order_by_fast_field::<u64>("ties", ord(*asc)))?.into_iter().map(|(v, a)| (optk(v.map(Key::U)), a)).collect(),
+            Kind::FastI64(asc) => search_wrapped(searcher, q, td().order_by_fast_field::<i64>("i", ord(*asc)))?.into_iter().map(|(v, a)| (optk(v.map(Key::I)), a)).collect(),
+            Kind::FastF64(asc) => search_wrapped(searcher, q, td().order_by_fast_field::<f64>("f", ord(*asc)))?.into_iter().map(|(v, a)| (optk(v.map(Key::F)), a)).collect(),
+            Kind::FastDate(asc) => search_wrapped(searcher, q, td().order_by_fast_field::<DateTime>("d", ord(*asc)))?.into_iter().map(|(v, a)| (optk(v.map(|d| Key::I(d.into_timestamp_nanos()))), a)).collect(),
+            Kind::FastStr(asc) => search_wrapped(searcher, q, td().order_by_string_fast_field("s", ord(*asc)))?.into_iter().map(|(v, a)| (optk(v.map(Key::S)), a)).collect(),
+            Kind::TweakFloor => search_wrapped(searcher, q, td().tweak_score(move |_r: &SegmentReader| move |_doc: DocId, score: Score| tweak_floor(score)))?
                 .into_iter().map(|(s, a)| (Key::Sc(s), a)).collect(),
-            Kind::TweakMod => searcher
-                .search(q, &td().tweak_score(move |r: &SegmentReader| {
+            Kind::TweakMod => search_wrapped(searcher, q, td().tweak_score(move |r: &SegmentReader| {
                     let col = r.fast_fields().u64("u").unwrap();
                     move |doc: DocId, _score: Score| col.first(doc).unwrap_or(7) % 5
                 }))?
                 .into_iter().map(|(s, a)| (Key::U(s), a)).collect(),
-            Kind::CustomMod(m, None) => searcher.search(q, &td().order_by(ModKey { m: *m }))?.into_iter().map(|(s, a)| (Key::U(s), a)).collect(),
-            Kind::CustomMod(m, Some(asc)) => searcher.search(q, &td().order_by((ModKey { m: *m }, ord(*asc))))?.into_iter().map(|(s, a)| (Key::U(s), a)).collect(),
+            Kind::CustomMod(m, None) => search_wrapped(searcher, q, td().order_by(ModKey { m: *m }))?.into_iter().map(|(s, a)| (Key::U(s), a)).collect(),
+            Kind::CustomMod(m, Some(asc)) => search_wrapped(searcher, q, td().order_by((ModKey { m: *m }, ord(*asc))))?.into_iter().map(|(s, a)| (Key::U(s), a)).collect(),
             Kind::Layout(l) => {
                 let map: std::collections::HashMap<_, _> = searcher.segment_readers().iter().enumerate().map(|(i, r)| (r.segment_id(), std::sync::Arc::new(l.get(i).cloned().unwrap_or_default()))).collect();
-                searcher.search(q, &td().order_by(LayoutKey { by_segment: std::sync::Arc::new(map) }))?.into_iter().map(|(s, a)| (Key::U(s), a)).collect()
+                search_wrapped(searcher, q, td().order_by(LayoutKey { by_segment: std::sync::Arc::new(map) }))?.into_iter().map(|(s, a)| (Key::U(s), a)).collect()
             }
-            Kind::PairAscDesc => searcher
-                .search(q, &td().order_by(((SortByStaticFastValue::<u64>::for_field("ties"), Order::Asc), (SortByStaticFastValue::<i64>::for_field("i"), Order::Desc))))?
+            Kind::Tuple(0, c, a) => search_wrapped(searcher, q, td().order_by((by(c[0], a[0]), by(c[1], a[1]), by(c[2], a[2]))))?
+                .into_iter().map(|((x, y, z), ad)| (Key::Tup(vec![ku(x), ku(y), ku(z)]), ad)).collect(),
+            Kind::Tuple(1, c, a) => search_wrapped(searcher, q, td().order_by((by(c[0], a[0]), by(c[1], a[1]), by(c[2], a[2]), by(c[3], a[3]))))?
+                .into_iter().map(|((x, y, z, w), ad)| (Key::Tup(vec![ku(x), ku(y), ku(z), ku(w)]), ad)).collect(),
+            Kind::Tuple(2, c, a) => search_wrapped(searcher, q, td().order_by(((by(c[0], a[0]), by(c[1], a[1]), by(c[2], a[2])), by(c[3], a[3]))))?
+                .into_iter().map(|(((x, y, z), w), ad)| (Key::Tup(vec![ku(x), ku(y), ku(z), ku(w)]), ad)).collect(),
+            Kind::Tuple(3, c, a) => search_wrapped(searcher, q, td().order_by((by(c[0], a[0]), (by(c[1], a[1]), by(c[2], a[2]), by(c[3], a[3])))))?
+                .into_iter().map(|((x, (y, z, w)), ad)| (Key::Tup(vec![ku(x), ku(y), ku(z), ku(w)]), ad)).collect(),
+            Kind::Tuple(_, c, a) => search_wrapped(searcher, q, td().order_by(((by(c[0], a[0]), by(c[1], a[1])), (by(c[2], a[2]), by(c[3], a[3])))))?
+                .into_iter().map(|(((x, y), (z, w)), ad)| (Key::Tup(vec![ku(x), ku(y), ku(z), ku(w)]), ad)).collect(),
+            Kind::PairAscDesc => search_wrapped(searcher, q, td().order_by(((SortByStaticFastValue::<u64>::for_field("ties"), Order::Asc), (SortByStaticFastValue::<i64>::for_field("i"), Order::Desc))))?
                 .into_iter().map(|((t, i), a)| (Key::Pair(Box::new(optk(t.map(Key::U))), Box::new(optk(i.map(Key::I)))), a)).collect(),
         })
     }));
@@ -957,7 +1018,9 @@ thread_local! {
 
 #[allow(clippy::too_many_arguments)]
 fn check_search(ctx: &mut Ctx, spec: &CorpusSpec, built: &Built, searcher: &Searcher, threads: usize, qe: &QueryEval, kind: &Kind, k: usize, o: usize) -> bool {
-    let case = json!({"kind": "search", "corpus": spec.to_json(), "query": qe.q.to_json(), "collector": kind_to_json(kind), "k": k, "offset": o, "threads": threads, "segment_order": segment_order(searcher)});
+    let wrap = WRAP.with(|w| w.get());
+    let case = json!({"kind": "search", "corpus": spec.to_json(), "query": qe.q.to_json(), "collector": kind_to_json(kind), "k": k, "offset": o, "threads": threads, "wrap": wrap, "segment_order": segment_order(searcher)});
+    ctx.report.count(["wrap:alone", "wrap:(Count,TopDocs)", "wrap:MultiCollector"][wrap.min(2) as usize]);
     let keys = keys_of(searcher, kind, &qe.hits);
     let mut all: Vec<(Key, u64)> = keys.into_iter().zip(qe.hits.iter().map(|(s, d, _)| ((*s as u64) << 32) | *d as u64)).collect();
     all.sort_by(|a, b| kind.cmp(&a.0, &b.0).then(a.1.cmp(&b.1)));
@@ -968,13 +1031,13 @@ fn check_search(ctx: &mut Ctx, spec: &CorpusSpec, built: &Built, searcher: &Sear
     ctx.report.count(if o == 0 { "offset:0" } else if o >= all.len() { "offset:beyond-end" } else { "offset:inside" });
     ctx.report.count(if k >= all.len() { "k:>=matches" } else if k == 1 { "k:1" } else { "k:other" });
     ctx.report.count(&format!("threads:{threads}"));
-    let canon = format!("{}|{}|{}|{k}|{o}|{threads}", spec.to_json(), qe.q.to_json(), kind.name());
+    let canon = format!("{}|{}|{}|{k}|{o}|{threads}|{wrap}", spec.to_json(), qe.q.to_json(), kind.name());
     let nontrivial = all.len() > k + o && spec.segs.len() >= 1 && !all.is_empty();
     ctx.report.case(&canon, nontrivial);
     let real = match run_real(searcher, qe.query.as_ref(), kind, k, o) {
         Ok(r) => r,
         Err(e) => {
-            ctx.report.violation("oracle", if e == "panic" { "C06:search-panic" } else { "C06:search-error" }, format!("TopDocs({k}, offset {o}) by {} on {}: {e}", kind.name(), qe.q.to_json()), case);
+            ctx.report.violation("oracle", if e == "panic" { "C06:search-panic" } else { "C06:search-error" }, format!("TopDocs({k}, offset {o}) by {} on {} (collector wrapping {wrap}): {e}", kind.name(), qe.q.to_json()), case);
             return false;
         }
     };
@@ -1012,15 +1075,30 @@ fn check_search(ctx: &mut Ctx, spec: &CorpusSpec, built: &Built, searcher: &Sear
             extra = format!(" [{w}]");
         }
     }
-    // recorded defect: a term of a field indexed without freqs through block_wand_single_scorer
-    if key == "C06:topk-wrong" && *kind == Kind::Score {
-        if let Q::Term(t) = &qe.q {
-            if let Some(w) = nofreq_signature(searcher, &built.fields, t) {
-                key = "C06:nofreq-term-blockmax-zero".into();
-                extra = format!(" [{w}]");
+    // recorded defect: the 4-tuple SortKeyComputer does not forward `comparator()`: the collector
+    // (per-segment TopNComputer, merge) orders every component naturally (descending) whatever
+    // the requested orders. Attributed only if a top-level 4-tuple has a non-natural component,
+    // every returned entry is a match with its own key, the returned list IS in all-descending
+    // order, and - when nothing is cut off per segment - it is exactly that order's page.
+    if key == "C06:topk-wrong" {
+        if let Kind::Tuple(1, cols, asc) = kind {
+            if asc.iter().any(|a| *a) {
+                let nat = Kind::Tuple(1, *cols, [false; 4]);
+                let own: std::collections::HashMap<u64, &Key> = all.iter().map(|(k, a)| (*a, k)).collect();
+                let keys_true = real.iter().all(|(k, a)| own.get(a).map(|kk| **kk == *k).unwrap_or(false));
+                let sorted_nat = real.windows(2).all(|w| nat.cmp(&w[0].0, &w[1].0).then(w[0].1.cmp(&w[1].1)) == Ordering::Less);
+                let mut all_nat = all.clone();
+                all_nat.sort_by(|a, b| nat.cmp(&a.0, &b.0).then(a.1.cmp(&b.1)));
+                let page_nat: Vec<(Key, u64)> = all_nat.into_iter().skip(o).take(k).collect();
+                let uncut = k + o >= all.len();
+                if keys_true && sorted_nat && (!uncut || page_nat == real) {
+                    key = "C06:four-tuple-sort-key-ignores-orders".into();
+                    extra = format!(" [verified: top-level 4-tuple with orders {asc:?}; the returned entries are in all-descending order{}]", if uncut { " and are exactly that order's page" } else { "" });
+                }
             }
         }
     }
+    // (C06:nofreq-term-blockmax-zero is fixed in the tree: no attribution any more)
     // recorded defect: a dis-max over term queries goes through block_wand, which sums the clauses.
     // Attributed only if the result IS the top-K of the clause sums (the same searcher's exhaustive
     // scores of the union of the same terms).
@@ -1131,6 +1209,7 @@ fn kind_to_json(k: &Kind) -> Value {
         Kind::CustomMod(m, o) => json!(["custom-mod", m, o]),
         Kind::PairAscDesc => json!("pair"),
         Kind::Layout(l) => json!(["layout", **l]),
+        Kind::Tuple(sh, c, a) => json!(["tuple", sh, c, a]),
     }
 }
 
@@ -1148,6 +1227,12 @@ fn kind_from_json(v: &Value) -> Option<Kind> {
         "str" => Some(Kind::FastStr(asc?)),
         "ties" => Some(Kind::FastTies(asc?)),
         "custom-mod" => Some(Kind::CustomMod(a[1].as_u64()?, a.get(2).and_then(|x| x.as_bool()))),
+        "tuple" => {
+            let c: Vec<u8> = a[2].as_array()?.iter().filter_map(|x| x.as_u64().map(|y| y as u8)).collect();
+            let o: Vec<bool> = a[3].as_array()?.iter().filter_map(|x| x.as_bool()).collect();
+            if c.len() != 4 || o.len() != 4 || c.iter().any(|x| *x as usize >= TUPLE_COLS.len()) { return None; }
+            Some(Kind::Tuple(a[1].as_u64()? as u8, [c[0], c[1], c[2], c[3]], [o[0], o[1], o[2], o[3]]))
+        }
         "layout" => Some(Kind::Layout(std::sync::Arc::new(a[1].as_array()?.iter().map(|s| s.as_array().map(|x| x.iter().filter_map(|y| y.as_u64()).collect()).unwrap_or_default()).collect()))),
         _ => None,
     }
@@ -1184,7 +1269,16 @@ fn gen_query(rng: &mut Rng) -> Q {
 
 fn gen_kind(rng: &mut Rng) -> Kind {
     let asc = rng.chance(1, 2);
-    match rng.below(20) {
+    match rng.below(24) {
+        20..=23 => {
+            // tuple sort keys, nested ones included, every component with its own order; mostly the
+            // low-cardinality columns so that later components decide
+            let mut cols = [0u8; 4];
+            for c in cols.iter_mut() { *c = if rng.chance(1, 6) { 3 } else { rng.below(3) as u8 }; }
+            let mut ord = [false; 4];
+            for o in ord.iter_mut() { *o = rng.chance(1, 2); }
+            Kind::Tuple(rng.below(5) as u8, cols, ord)
+        }
         0..=6 => Kind::Score,
         7 => Kind::FastU64(asc),
         8 => Kind::FastI64(asc),
@@ -1281,7 +1375,10 @@ fn corpus_run(ctx: &mut Ctx, spec: &CorpusSpec, rng: &mut Rng, n_queries: usize,
             let k = if k > 0 { k } else { match rng.below(8) { 0 | 1 => 1, 2 => 2, 3 => 10, 4 => m.max(1), 5 => m + 5, 6 => 1 + rng.usize_below(m.max(1)), _ => 1 + rng.usize_below(40) } };
             let o = match rng.below(8) { 0..=3 => 0, 4 => rng.usize_below(m + 1), 5 => m, 6 => m + 3, _ => rng.usize_below(20) };
             let (threads, searcher) = &ss[if rng.chance(1, 3) { ss.len() - 1 } else { 0 }];
+            // every third search hands TopDocs over inside `(Count, TopDocs)`, every third inside a MultiCollector
+            WRAP.with(|w| w.set(((si + qi + k + o) % 3) as u8));
             check_search(ctx, spec, &built, searcher, *threads, qe, &kind, k, o);
+            WRAP.with(|w| w.set(0));
         }
         // paging over successive offsets: every match exactly once (exactly comparable keys)
         let t_page = std::time::Instant::now();
@@ -1294,6 +1391,7 @@ fn corpus_run(ctx: &mut Ctx, spec: &CorpusSpec, rng: &mut Rng, n_queries: usize,
             let mut ok = true;
             // every page is itself a checked (and, on failure, attributed) search
             let mut pages_ok = true;
+            WRAP.with(|w| w.set(((qi / 3 + k) % 3) as u8));
             loop {
                 SKIP_MODEL_SPEC.with(|c| c.set(o > 0));
                 pages_ok &= check_search(ctx, spec, &built, searcher, *threads, qe, &kind, k, o);
@@ -1306,6 +1404,7 @@ fn corpus_run(ctx: &mut Ctx, spec: &CorpusSpec, rng: &mut Rng, n_queries: usize,
                 o += k;
                 if o > m + 2 * k { break }
             }
+            WRAP.with(|w| w.set(0));
             let mut sorted = pages.clone();
             sorted.sort();
             let mut exp: Vec<u64> = qe.hits.iter().map(|(s, d, _)| ((*s as u64) << 32) | *d as u64).collect();
@@ -1583,12 +1682,6 @@ fn driver_case(ctx: &mut Ctx, spec: &CorpusSpec, built: &Built, searcher: &Searc
             let p = (0..got.len().max(expected.len())).find(|i| got.get(*i) != expected.get(*i)).unwrap_or(0);
             let mut key = "C06:pruning-driver-differs-from-exhaustive".to_string();
             let mut extra = String::new();
-            if let Q::Term(t) = q {
-                if let Some(w) = nofreq_signature(searcher, &built.fields, t) {
-                    key = "C06:nofreq-term-blockmax-zero".into();
-                    extra = format!(" [{w}]");
-                }
-            }
             if let (Some(terms), true) = (q.wand_terms(), key == "C06:pruning-driver-differs-from-exhaustive") {
                 let (ubmax, ubblock) = ub_check(searcher, &built.fields, &terms);
                 let single = terms.len() == 1;
@@ -2044,7 +2137,9 @@ pub fn replay(ctx: &mut Ctx, case: &Value) {
             let (t, searcher) = ss.iter().find(|(t, _)| *t == threads).unwrap_or(&ss[0]);
             let evals = eval_queries(&built, searcher, vec![q]);
             if let Some(qe) = evals.first() {
+                WRAP.with(|w| w.set(case["wrap"].as_u64().unwrap_or(0) as u8));
                 check_search(ctx, &spec, &built, searcher, *t, qe, &kind, case["k"].as_u64().unwrap_or(1) as usize, case["offset"].as_u64().unwrap_or(0) as usize);
+                WRAP.with(|w| w.set(0));
             }
         }
         "driver" | "driver-multi" => {
@@ -2090,7 +2185,7 @@ pub fn run(ctx: &mut Ctx) {
     ctx.report.correspondence_obligations = vec![
         "TopNComputer::into_sorted_vec = model intoSortedVec (two select_nth behaviours) = sort-and-truncate".into(),
         "TopNComputer::threshold after every push = model threshold".into(),
-        "Searcher::search(TopDocs by score / fast field asc,desc (u64,i64,f64,date,str) / tweak_score / custom SortKeyComputer / pair) = model topK of the same searcher's exhaustive (doc,key) list".into(),
+        "Searcher::search(TopDocs by score / fast field asc,desc (u64,i64,f64,date,str) / tweak_score / custom SortKeyComputer / pair / 3-,4-tuples and nested tuples with per-component orders; TopDocs alone, inside (Count, TopDocs) and inside a MultiCollector) = model topK of the same searcher's exhaustive (doc,key) list".into(),
         "paging over successive offsets enumerates every match exactly once".into(),
         "block_wand_single_scorer's callback sequence = Model/Wand.lean::wandSingle on the term's real blocks and bounds".into(),
         "Weight::for_each_pruning (block_wand_single_scorer / block_wand / block_wand_intersection) under constant, staircase and K-th-best callback policies = the exhaustive loop with the same callback (1-2 clause queries, bit-exact)".into(),
